@@ -493,6 +493,64 @@ def crep3(n: size, x: f32[n + 4], y: f32[n + 2], P: f32[n, n], Q: f32[n, n], fla
         for j in seq(0, n):
             P[j, i] = Q[i, j]
 """, callees=("shifted", "cond_set", "mat_t"))
+S("call/guards", "call", """
+@proc
+def cg_eq(m: size, k: index, d: [f32][m]):
+    for i in seq(0, m):
+        if i == k:
+            d[i] = 1.0
+
+@proc
+def cg_lt(m: size, k: index, d: [f32][m]):
+    for i in seq(0, m):
+        if i < k:
+            d[i] = 1.0
+
+@proc
+def cg_le(m: size, k: index, d: [f32][m]):
+    for i in seq(0, m):
+        if i <= k:
+            d[i] = 1.0
+
+@proc
+def cg_gt(m: size, k: index, d: [f32][m]):
+    for i in seq(0, m):
+        if i > k:
+            d[i] = 1.0
+
+@proc
+def cg_ge(m: size, k: index, d: [f32][m]):
+    for i in seq(0, m):
+        if i >= k:
+            d[i] = 1.0
+
+@proc
+def cguards(n: size, x: f32[8, n + 4]):
+    for j in seq(0, n):
+        if j == 2:
+            x[0, j] = 1.0
+    for j in seq(0, n):
+        if j < 2:
+            x[1, j] = 1.0
+    for j in seq(0, n):
+        if j <= 1:
+            x[2, j] = 1.0
+    for j in seq(0, n):
+        if j > 1:
+            x[3, j] = 1.0
+    for j in seq(0, n):
+        if j >= 2:
+            x[4, j] = 1.0
+    for j in seq(0, n):
+        if 2 == j:
+            x[5, j] = 1.0
+    for j in seq(0, n):
+        if 2 > j:
+            x[6, j] = 1.0
+    for j in seq(0, n):
+        if j + 1 < 3:
+            x[7, j] = 1.0
+""", callees=("cg_eq", "cg_lt", "cg_le", "cg_gt", "cg_ge"))
 S("call/noop", "call", """
 @proc
 def nop(m: size, d: [f32][m]):
@@ -897,10 +955,91 @@ def dep_seeds():
     return out
 
 
+# generated configuration-dataflow family: every sequence of three statements from a 9-statement
+# alphabet over one control-typed field (writes at top level, in loops that run 0 / 1 / n times, under a
+# guard, through a callee; reads at top level and in a loop)
+CFG_ALPHA = [
+    ("w0", "CFG.a = 0"),
+    ("w1", "CFG.a = 1"),
+    ("r", "if CFG.a == 1:\n        x[0] = x[0] + 1.0"),
+    ("l1w", "for i in seq(0, 1):\n        CFG.a = 1"),
+    ("lnw", "for i in seq(0, n):\n        CFG.a = 1"),
+    ("l0w", "for i in seq(n, n):\n        CFG.a = 1"),
+    ("gw", "if n > 1:\n        CFG.a = 1"),
+    ("cw", "cfg_set1()"),
+    ("lr", "for i in seq(0, n):\n        if CFG.a == 1:\n            x[i] = 2.0"),
+]
+
+
+def cfg_seed_src(items):
+    body = "\n    ".join(s for _, s in items)
+    nm = "_".join(k for k, _ in items)
+    return CFG + f"""
+@proc
+def cfg_set1():
+    CFG.a = 1
+
+@proc
+def cfg_{nm}(n: size, x: f32[n + 1]):
+    {body}
+"""
+
+
+def cfg_seeds():
+    out = []
+    for items in itertools.product(CFG_ALPHA, repeat=3):
+        nm = "_".join(k for k, _ in items)
+        out.append(Seed(f"cfggen/{nm}", "cfggen", cfg_seed_src(items), configs=("CFG",)))
+    return out
+
+
+# generated loop-nest family for interchange / lift_scope / fission-through-nests: outer bounds x inner
+# bounds (rectangular, disjoint from the outer range, lower or upper bound depending on the outer
+# iterator) x bodies (commuting and non-commuting)
+NEST_OUTER = [("on", "0", "n"), ("o24", "2", "4"), ("o02", "0", "2")]
+NEST_INNER = [("in", "0", "n"), ("i02", "0", "2"), ("i04", "0", "4"), ("ilo", "i", "n + 2"), ("ihi", "0", "i + 1"), ("iband", "i", "i + 2")]
+NEST_BODY = [
+    ("set", ["x[i, j] = 1.0"]),
+    ("rec", ["s = s * 2.0 + x[i, j]"]),
+    ("diag", ["y[i + j] = y[i + j] * 2.0 + x[i, j]"]),
+    ("sel", ["if j == 2:", "    c[0] = 1.0", "if j == 3:", "    c[0] = 2.0"]),
+    ("last", ["y[j] = x[i, j]"]),
+    ("red", ["y[i] += x[i, j]"]),
+]
+
+
+def nest_seed_src(o, i_, b):
+    bd = dict(NEST_BODY)[b]
+    _, olo, ohi = [t for t in NEST_OUTER if t[0] == o][0]
+    _, ilo, ihi = [t for t in NEST_INNER if t[0] == i_][0]
+    body = "\n".join("            " + l for l in bd)
+    return f"""
+@proc
+def nest_{o}_{i_}_{b}(n: size, x: f32[n + 6, n + 8], y: f32[2 * n + 16], c: f32[1], s: f32):
+    for i in seq({olo}, {ohi}):
+        for j in seq({ilo}, {ihi}):
+{body}
+"""
+
+
+def nest_seeds():
+    out = []
+    for (o, _, _), (i_, _, _), (b, _) in itertools.product(NEST_OUTER, NEST_INNER, NEST_BODY):
+        out.append(Seed(f"nestgen/{o}_{i_}_{b}", "nestgen", nest_seed_src(o, i_, b)))
+    return out
+
+
 def by_name(name):
     for s in SEEDS:
         if s.name == name:
             return s
+    if name.startswith("nestgen/"):
+        o, i_, b = name.split("/", 1)[1].split("_")
+        return Seed(name, "nestgen", nest_seed_src(o, i_, b))
+    if name.startswith("cfggen/"):
+        ks = name.split("/", 1)[1].split("_")
+        d = dict(CFG_ALPHA)
+        return Seed(name, "cfggen", cfg_seed_src([(k, d[k]) for k in ks]), configs=("CFG",))
     if name.startswith("depgen/"):
         for s in dep_seeds():
             if s.name == name:
